@@ -127,7 +127,10 @@ def run(tier, seed):
     # names whose existence changes during the push: the result must not depend on where the push is cut
     for steps in ([[(tq.t_delete, 'f', False)], [(tq.t_viaold, 'f', 'd/h')], [(tq.t_mod, 'e/i')]], [[(tq.t_rename, 'f', 'n', False)], [(tq.t_viaold, 'f', 'e/i')], [(tq.t_mod, 'n')]],
                   [[(tq.t_mod, 'f')], [(tq.t_rename, 'f', 'n', True)], [(tq.t_mod, 'n', 1, 0, 4)]], [[(tq.t_create, 'n', False)], [(tq.t_mod, 'n', 1, 0, 0)], [(tq.t_delete, 'n', False)]],
-                  [[(tq.t_delete, 'd/g', False)], [(tq.t_create, 'd/g', True)], [(tq.t_mod, 'd/g', 1, 0, 0)]], [[(tq.t_delete, 'f', True)], [(tq.t_fill, 'f')], [(tq.t_mod, 'f', 1, 0, 0)]]):
+                  [[(tq.t_delete, 'd/g', False)], [(tq.t_create, 'd/g', True)], [(tq.t_mod, 'd/g', 1, 0, 0)]], [[(tq.t_delete, 'f', True)], [(tq.t_fill, 'f')], [(tq.t_mod, 'f', 1, 0, 0)]],
+                  # a file created earlier in the run and created again / prepended to; a file re-created after its deletion
+                  [[(tq.t_create, 'n', False)], [(tq.t_create_over, 'n')], [(tq.t_mod, 'f')]], [[(tq.t_create, 'n', True)], [(tq.t_prepend, 'n')], [(tq.t_mod, 'n', 1, 0, 0)]],
+                  [[(tq.t_mode, 'e/i', False)], [(tq.t_delete, 'e/i', False)], [(tq.t_create, 'e/i', False)]], [[(tq.t_create, 'x/y/n', False)], [(tq.t_create_over, 'x/y/n')], [(tq.t_mod, 'f')]]):
         s_ = tq.build_series(m0, steps)
         if s_:
             series.append(s_)
